@@ -30,6 +30,14 @@ def card_fn(setty):
     return card_cache[key]
 
 
+
+class UnionSlice:
+    """u[lo:hi] of a value whose type is a union of tuple shapes; only meaningful as the left operand of `+ (..)`."""
+
+    def __init__(self, base, lo, hi):
+        self.base, self.lo, self.hi = base, lo, hi
+        self.ty = None
+
 class ExprMixin:
     # ------------------------------------------------------------------ element set of a sequence
     def seqset_fn(self, sty):
@@ -638,6 +646,24 @@ class ExprMixin:
             a = self.ev(node.left, st)
             b = self.ev(node.right, st)
         op = node.op
+        if isinstance(a, UnionSlice):
+            # u[lo:hi] + (x, ..) on a union of tuple shapes: the (unique) shape for which the result is again a shape of the union
+            if not (isinstance(op, ast.Add) and isinstance(b.ty, T.Tup)):
+                raise Unsupported("slice of a union of tuple shapes outside `u[a:b] + (..)`")
+            u = a.base
+            cands = []
+            for tag, aty in u.ty.alts.items():
+                if isinstance(aty, T.Tup):
+                    idx = list(range(len(aty.items)))[slice(a.lo, a.hi)]
+                    ext = T.Tup(*([aty.items[i] for i in idx] + list(b.ty.items)))
+                    if any(x == ext for x in u.ty.alts.values()):
+                        cands.append((tag, aty, idx, ext))
+            if len(cands) != 1:
+                raise Unsupported(f"tuple slice + concatenation on {u.ty}")
+            tag, aty, idx, ext = cands[0]
+            self.check(st, u.ty.is_(tag, u.t), f"model(record is not in its {tag} form)", node)
+            pv = u.ty.proj(tag, u.t)
+            return SV(ext.mk(*([aty.get(pv, i) for i in idx] + [b.ty.get(b.t, i) for i in range(len(b.ty.items))])), ext)
         if isinstance(a.ty, T.Set) and isinstance(b.ty, T.Set):
             if isinstance(op, ast.BitOr):
                 return SV(z3.SetUnion(a.t, b.t), a.ty)
@@ -822,6 +848,20 @@ class ExprMixin:
                 tag, aty = cands[0]
                 self.check(st, base.ty.is_(tag, base.t), "TypeError(subscript)", node)
                 base = SV(base.ty.proj(tag, base.t), aty)
+        if isinstance(node.slice, ast.Slice) and isinstance(base, SV) and isinstance(base.ty, (T.Union, T.Tup)) and node.slice.step is None:
+            # t[lo:hi] with literal bounds on a tuple (or on a union of tuple shapes: resolved by the `+ (..)` that follows)
+            def lit(e):
+                if e is None:
+                    return None
+                v = ast.literal_eval(e) if isinstance(e, (ast.Constant, ast.UnaryOp)) else "?"
+                return v
+            lo_, hi_ = lit(node.slice.lower), lit(node.slice.upper)
+            if all(x is None or isinstance(x, int) for x in (lo_, hi_)):
+                if isinstance(base.ty, T.Tup):
+                    idx = list(range(len(base.ty.items)))[slice(lo_, hi_)]
+                    rt = T.Tup(*[base.ty.items[i] for i in idx])
+                    return SV(rt.mk(*[base.ty.get(base.t, i) for i in idx]), rt)
+                return UnionSlice(base, lo_, hi_)
         if isinstance(node.slice, ast.Slice):
             return self.seq_slice(base, node.slice, st, node)
         if isinstance(base.ty, T.Rec) and isinstance(node.slice, ast.Constant) and isinstance(node.slice.value, str):
